@@ -123,6 +123,14 @@ Section SatP.
   Variable vcmp : V -> V -> res comparison.
   Variable vparse : str -> option V.
   Variable vshow : V -> str.
+  (* the version parser rejects the empty text (Relation::version returns None for an empty version text) *)
+  Hypothesis vparse_nonempty : vparse [] = None.
+  Lemma version_string_tok v pre cn post : vparse (vshow v) = Some v ->
+    version_string (Node VERSION [Tok L_PARENS pre; Node CONSTRAINT cn; Tok WHITESPACE post; Tok IDENT (vshow v); Tok R_PARENS [41%N]]) = Some (vshow v).
+  Proof.
+    intros H. unfold version_string. cbn [children filter is_tok_of rkind_eqb rkind_code N.eqb Pos.eqb orb map concat text].
+    rewrite app_nil_r. destruct (vshow v) eqn:E; [rewrite vparse_nonempty in H; discriminate|reflexivity].
+  Qed.
 
   Notation rel := (rel V).
   Notation field := (list (list rel)).
@@ -238,6 +246,7 @@ Section SatP.
     - unfold relation_new. destruct (one_char_toks o) as (cts & E & Ht). rewrite E. cbn [bind].
       eexists. split; [reflexivity|]. split; [|reflexivity].
       unfold Sat.tree_rel, ll_name, ll_version, first_ident. cbn [children find is_tok_of is_node_of rkind_eqb rkind_code N.eqb Pos.eqb bind].
+      rewrite (version_string_tok _ _ _ _ H).
       rewrite text_node, Ht, parse_show_vop, !text_tok, H. reflexivity.
     - eexists. split; [reflexivity|]. split; reflexivity.
   Qed.
@@ -383,8 +392,8 @@ Section SatP.
       rewrite H1. destruct (find (is_tok_of IDENT) cs) as [tk|]; [|discriminate]. injection Hn as Hn.
       rewrite Hn. cbn [bind]. unfold ll_version. cbn [children]. rewrite H2.
       subst new. unfold version_node at 1 2. cbn [children find is_node_of is_tok_of rkind_eqb rkind_code N.eqb Pos.eqb].
-      unfold first_ident. cbn [children find is_node_of is_tok_of rkind_eqb rkind_code N.eqb Pos.eqb].
-      rewrite text_node, constraint_tokens_text, parse_show_vop, text_tok, Hv. reflexivity. }
+      rewrite (version_string_tok _ _ _ _ Hv).
+      rewrite text_node, constraint_tokens_text, parse_show_vop, Hv. reflexivity. }
     assert (Hk : forall cs', is_node_of (ekind (Node k cs)) (Node k cs') = true).
     { intros cs'. cbn. unfold rkind_eqb. apply N.eqb_refl. }
     cbn [set_version_some]. fold new.
@@ -448,7 +457,7 @@ Section SatP.
   Definition version_parts (r : rtree) : option (rtree * str) :=
     match find (is_node_of VERSION) (children r) with
     | None => None
-    | Some vn => match find (is_node_of CONSTRAINT) (children vn), first_ident vn with
+    | Some vn => match find (is_node_of CONSTRAINT) (children vn), version_string vn with
                  | Some cn, Some vt => Some (cn, vt)
                  | _, _ => None
                  end
@@ -473,7 +482,7 @@ Section SatP.
   Proof.
     unfold ll_version, version_parts. destruct (find (is_node_of VERSION) (children r)) as [vn|]; [|reflexivity].
     destruct (find (is_node_of CONSTRAINT) (children vn)); [|reflexivity].
-    destruct (first_ident vn); reflexivity.
+    destruct (version_string vn); reflexivity.
   Qed.
 
   Theorem tree_field_total t :
@@ -748,6 +757,8 @@ Definition readable_version (v : version) : Prop := exists text, parse_version t
 Definition readable_rel (r : rel version) : Prop :=
   match r_ver r with Some (_, v) => readable_version v | None => True end.
 
+Lemma parse_version_empty : parse_version [] = None.
+Proof. vm_compute. reflexivity. Qed.
 Lemma readable_roundtrips r : readable_rel r -> rel_roundtrips version parse_version show_version r.
 Proof.
   unfold readable_rel, rel_roundtrips. destruct (r_ver r) as [[o v]|]; [|trivial].
@@ -764,8 +775,8 @@ Proof.
   assert (H' : Forall (Forall (rel_roundtrips version parse_version show_version)) f).
   { eapply Forall_impl; [|exact H]. intros e He. eapply Forall_impl; [|exact He]. apply readable_roundtrips. }
   split.
-  - apply (build_field_view version parse_version show_version f H').
-  - apply (sv_field_view version parse_version show_version f H').
+  - apply (build_field_view version parse_version show_version parse_version_empty f H').
+  - apply (sv_field_view version parse_version show_version parse_version_empty f H').
 Qed.
 
 (* set_version before the fix: GreaterThan / LessThan written with one character *)
@@ -937,7 +948,7 @@ Proof.
   intros H.
   pose (w := mk_version None (s2l "0~2024") None).
   pose (f := [[mk_rel (s2l "a") (Some (OpGe, w))]]).
-  destruct (build_field_view version parse_version show_version f) as (t & _ & Ht).
+  destruct (build_field_view version parse_version show_version parse_version_empty f) as (t & _ & Ht).
   { repeat constructor. }
   destruct (H t f (LPair (s2l "a") big_version) Ht) as [_ H2].
   vm_compute in H2. discriminate.
